@@ -577,6 +577,7 @@ func (a *jwtAuthenticator) calculateCacheKey(ep *endpoint.Endpoint, renderedURL,
 	digest := sha256.New()
 	digest.Write(ep.Hash())
 	digest.Write(stringx.ToBytes(renderedURL))
+	digest.Write([]byte{0})
 	digest.Write(stringx.ToBytes(reference))
 
 	return hex.EncodeToString(digest.Sum(nil))
